@@ -87,6 +87,17 @@ def c01_random(ctx, n_core, n_ext):
     hs += [U.random_tcpcm_history(rng, "rm-%d" % i, steps=4 + rng.randrange(3)) for i in range(max(60, n_ext // 5))]
     # pods behind the endpoints: drain-support, blue/green by pod label, names, cookies and ids taken from the pod
     hs += [U.random_pod_history(rng, "rp-%d" % i, steps=4 + rng.randrange(3)) for i in range(max(60, n_ext // 4))]
+    # drain-support: a pod starts terminating and leaves the Endpoints, stays as a draining server, and is finally deleted (the delete
+    # of the pod is the only event of that batch)
+    for k, (svc, tmpl) in enumerate([("s1", "t1"), ("s2", "t9"), ("s1", "t4"), ("s2", "t2")]):
+        pods = [U.op_pod(s, n, group="blue") for s in ("s1", "s2") for n in (1, 2, 3)]
+        steps = [dict(ops=U.base_ops() + [U.op_sec("c1", "crt:c1"), U.op_sec("c2", "crt:c2"), U.op_cm({"drain-support": "true"})] + pods +
+                          [U.op_eps("s1", "e4"), U.op_eps("s2", "e4"), U.op_ing(1, tmpl)]),
+                 dict(ops=[U.op_pod(svc, 2, terminating=True, group="blue"), U.op_eps(svc, "e1")]),
+                 dict(ops=[U.op_del("pod", "d/%s-2" % svc)]),
+                 dict(ops=[U.op_pod(svc, 3, terminating=True, group="blue")]),
+                 dict(ops=[U.op_del("pod", "d/%s-3" % svc)])]
+        hs.append(dict(id="drain-%d" % k, opt=dict(shards=0 if k < 2 else 3, watchwithoutclass=True), steps=steps))
     return hs
 
 
